@@ -384,6 +384,7 @@ def certificate(o, sp_scaled, vals):
     still free and leaves enough ids for the rest (for a complete list this is matching by rank; a greedy
     nearest-first matching in returned order mis-assigned dense clusters of tiny mu: a recorded false alarm)."""
     mu = np.array([float(x) for x in sp_scaled])
+    scale = float(np.max(np.abs(mu))) if len(mu) else 1.0
     lbfam = o["api"] in LB_APIS
     ms = []
     for z in vals:
@@ -405,7 +406,8 @@ def certificate(o, sp_scaled, vals):
     for r, c in enumerate(order):
         hi = len(mu) - (len(ms) - r)            # last id that leaves room for the remaining values
         seg = np.abs(mu[j:hi + 1] - ms[c])
-        k = j + int(np.argmin(seg))             # leftmost nearest
+        # leftmost of the (nearly) nearest: members of a multiple eigenvalue are taken in order
+        k = j + int(np.nonzero(seg <= seg.min() + 1e-10 * scale)[0][0])
         ids[c] = k + 1
         j = k + 1
     return ids
@@ -422,9 +424,10 @@ def zero_sum_columns(B, cls):
 FORMS = ("csr", "csc", "coo")
 
 
-def make_event(eid, impl, prob, o, K, B, gen, panel=None, want_raw=False):
-    """call + record.  prob: abstract problem (python, Fractions); returns the event dict"""
-    obs, vals, vecs = observe(impl, o, K, B, panel=panel, form=gen.get("form", "csr"))
+def make_event(eid, impl, prob, o, K, B, gen, panel=None, want_raw=False, pre=None):
+    """call + record.  prob: abstract problem (python, Fractions); returns the event dict.
+    pre = (obs, vals, vecs): the call has been made already (objects that build their own matrices)"""
+    obs, vals, vecs = pre if pre is not None else observe(impl, o, K, B, panel=panel, form=gen.get("form", "csr"))
     cert = []
     if obs["exc"] == "":
         obs["res"] = residuals(o, K, B, vals, vecs, prob["cls"])
@@ -529,6 +532,104 @@ def _group_worker(i):
                 excluded["ARPACK broke down / did not converge (solver contract not met): %s" % e["obs"]["exc"]] += 1
                 continue
             events.append(e)
+    return events, excluded
+
+
+CONE_MODELS = ("clpt_donnell_bc1", "clpt_donnell_bc3", "clpt_sanders_bc2", "clpt_donnell_bc2")
+
+
+def conecyl_definition(rs):
+    """a small ConeCyl (cylinder or cone, clpt models) under axial force, pressure and torque that are all
+    non-zero and distinct, so that any mix-up of the three geometric stiffness parts shows"""
+    return dict(model=CONE_MODELS[int(rs.randint(0, len(CONE_MODELS)))], alphadeg=[0., 20., 35.][int(rs.randint(0, 3))],
+                m1=int(rs.randint(5, 8)), m2=int(rs.randint(3, 5)), n2=int(rs.randint(4, 6)),
+                r2=250., H=[510., 300.][int(rs.randint(0, 2))], plyt=0.125,
+                stack=[[0, 0, 19, -19, 37, -37, 45, -45, 51, -51], [0, 90, 90, 0], [45, -45, -45, 45]][int(rs.randint(0, 3))],
+                laminaprop=(123.55e3, 8.708e3, 0.319, 5.695e3, 5.695e3, 5.695e3),
+                Fc=[1000., 1500., 700.][int(rs.randint(0, 3))], P=[0.004, 0.002][int(rs.randint(0, 2))],
+                T=[3.e5, 1.e5][int(rs.randint(0, 2))])
+
+
+def build_conecyl(d):
+    from compmech.conecyl import ConeCyl
+    cc = ConeCyl()
+    for k in ("model", "m1", "m2", "n2", "laminaprop", "stack", "plyt", "r2", "H", "alphadeg", "Fc", "P", "T"):
+        setattr(cc, k, d[k])
+    return cc
+
+
+def conecyl_pencil(cc, clc, pos):
+    """the pencil the docstring of ConeCyl.lb states for each combined_load_case, from the parts the object holds
+    after the call: None: (k0, kG0);  1: critical axial load for a fixed torsion (k0 + kG0_T, kG0_Fc);
+    2: critical axial load for a fixed pressure (k0 + kG0_P, kG0_Fc);  3: critical torsion for a fixed axial
+    load (k0 + kG0_Fc, kG0_T)"""
+    k0 = csr_matrix(cc.k0)
+    if clc is None:
+        M, A = k0, csr_matrix(cc.kG0)
+    elif clc == 1:
+        M, A = k0 + csr_matrix(cc.kG0_T), csr_matrix(cc.kG0_Fc)
+    elif clc == 2:
+        M, A = k0 + csr_matrix(cc.kG0_P), csr_matrix(cc.kG0_Fc)
+    else:
+        M, A = k0 + csr_matrix(cc.kG0_Fc), csr_matrix(cc.kG0_T)
+    return csr_matrix(M[pos:, pos:]), csr_matrix(A[pos:, pos:])
+
+
+def _conecyl_worker(spec):
+    """ConeCyl.lb / ConeCyl.eigen on real small shells for combined_load_case None / 1 / 2 / 3: the returned pairs
+    are judged as eigenpairs of the documented pencil (same trace event as the driven ConeCyl.lb)"""
+    gen, excluded, events = spec["gen"], collections.Counter(), []
+    gc.freeze()
+    d = gen["def"]
+    for (clc, method, num) in spec["calls"]:
+        o = dict(api="conecyl_lb", sparse=True, num=num, sort=False, reduced=False, pos=3)
+        g = dict(gen, clc=clc, method=method, scale=1.0, group="%s-c%s" % (gen["group"], clc), form="csr")
+        sink = io.StringIO()
+        cc = None
+        try:
+            with warnings.catch_warnings(), contextlib.redirect_stdout(sink), np.errstate(all="ignore"):
+                warnings.simplefilter("ignore")
+                cc = build_conecyl(d)
+                cc.num_eigvalues = num
+                exc = ""
+                try:
+                    getattr(cc, method)(combined_load_case=clc)
+                    vals, vecs = np.asarray(cc.eigvals), np.asarray(cc.eigvecs)
+                except Exception as ex:
+                    exc, msg_, vals, vecs = type(ex).__name__, str(ex)[:200], None, None
+                from compmech.conecyl.modelDB import get_model
+                if get_model(d["model"])["num0"] != o["pos"]:
+                    raise AssertionError("num0")
+                K, B = conecyl_pencil(cc, clc, o["pos"])
+        except Exception as ex:
+            excluded["ConeCyl definition / matrices not available: %s" % type(ex).__name__] += 1
+            continue
+        if exc in ARPACK_FAILURES:
+            excluded["ARPACK broke down / did not converge (solver contract not met): %s" % exc] += 1
+            continue
+        cls = classify(K, B)
+        act = [i for i, c in enumerate(cls) if c in ("both", "konly")]
+        wK = np.linalg.eigvalsh(K[act, :][:, act].toarray()) if act else np.array([0.0])
+        if wK[0] <= 1e-12 * wK[-1]:
+            # e.g. clpt_donnell_bc2 cones: k0 is singular on its own amplitudes (outside the property's premise)
+            excluded["k0 + fixed load part not positive definite on its active amplitudes"] += 1
+            continue
+        try:
+            sp = reference_spectrum(K, B, cls)
+        except np.linalg.LinAlgError:
+            excluded["k0 + fixed load part not positive definite on its active amplitudes"] += 1
+            continue
+        if any(abs(float(x) - 1.0) < 1e-3 or abs(float(x) + 1.0) < 1e-6 for x in sp):
+            excluded["reference load within tolerance of critical"] += 1
+            continue
+        if exc:
+            obs = dict(exc=exc, msg=msg_, nvals=0, nr=0, nc=0, vals=[], nzrows=[], res=[], peer=[], intact=True)
+        else:
+            nz = np.nonzero(np.any(vecs != 0, axis=1))[0]
+            obs = dict(exc="", nvals=int(vals.shape[0]), nr=int(vecs.shape[0]), nc=int(vecs.shape[1]),
+                       vals=[cplx(z) for z in vals], nzrows=[int(i) + 1 for i in nz], res=[], peer=[], intact=True)
+        prob = dict(n=K.shape[0], cls=cls, sp=sp, s=Fraction(1))
+        events.append(make_event(0, None, prob, o, K, B, g, pre=(obs, vals, vecs)))
     return events, excluded
 
 
@@ -830,7 +931,8 @@ def describe(e):
     o = e["o"]
     cls = e["p"]["cls"]
     return ("%s(sparse_solver=%s, num_eigvalues=%d%s) n=%d active=%d stiffness-only=%d load/mass-only=%d -> %s [%s]"
-            % (o["api"], o["sparse"], o["num"],
+            % (("ConeCyl.%s[combined_load_case=%s]" % (e["gen"]["method"], e["gen"]["clc"])) if e["gen"].get("kind") == "conecyl"
+               else o["api"], o["sparse"], o["num"],
                ", sort=%s, reduced_dof=%s" % (o["sort"], o["reduced"]) if o["api"] not in LB_APIS else "",
                e["p"]["n"], sum(c in ("both", "konly") for c in cls), sum(c == "konly" for c in cls),
                sum(c == "bonly" for c in cls),
@@ -891,6 +993,14 @@ def replay_file(prop, path, build):
         print("replay file carries no event (deviation summary): %s" % d.get("what"))
         return 0
     gen = rp["gen"]
+    if gen.get("kind") == "conecyl":
+        evs, exc = _conecyl_worker(dict(gen=dict(gen, group=gen["group"].rsplit("-c", 1)[0]),
+                                        calls=[(gen["clc"], gen["method"], rp["event"]["o"]["num"])]))
+        if not evs:
+            print("MACHINERY-ERROR", prop, "conecyl replay not executable: %s" % dict(exc))
+            return 2
+        e = evs[0]
+        return _judge_replay(prop, path, e)
     impl = Impl()
     K, B = gen_matrices(gen)
     ev = rp["event"]
@@ -901,6 +1011,11 @@ def replay_file(prop, path, build):
     e = make_event(0, impl, prob, ev["o"], K, B, gen, panel=panel)
     if ev["obs"].get("peer"):
         e["obs"]["peer"] = ev["obs"]["peer"]
+    return _judge_replay(prop, path, e)
+
+
+def _judge_replay(prop, path, e):
+    e["id"] = 0
     verdicts, results, problems = validate_trace("ew-replay", "Trace_EigWrap", trace_cfg(), [strip(e)], nproc=1)
     if problems:
         print("MACHINERY-ERROR", prop, problems[0][:1500])
@@ -1046,13 +1161,20 @@ def run_family(prop, family, tier, seed, build, impl=None, skip_mc=False, max_la
         specs.append(dict(gen=dict(kind="random", family=family, group="R%d" % j, rseed=rseed, n=n, nnull=nnull,
                                    nkonly=nkonly, nbonly=nbonly, regime=regime, grade=grade),
                           opts=opts_for(False), maxdof=None))
+    cone_specs = []
+    if family == "lb":      # real ConeCyl objects, every combined load case, lb and its duplicate eigen
+        for j in range(3 if tier == "quick" else 12):
+            dcc = conecyl_definition(rs)
+            calls = [(clc, "lb", int(rs.randint(2, 7))) for clc in (None, 1, 2, 3)]
+            calls += [(clc, "eigen", int(rs.randint(2, 7))) for clc in ((2, 3) if j % 2 else (None, 1, 2))]
+            cone_specs.append(dict(gen=dict(kind="conecyl", family=family, group="C%d" % j, **{"def": dcc}), calls=calls))
     _FORK.update(impl=impl, family=family, specs=specs)
     if tier == "quick":
-        parts = [_group_worker(i) for i in range(len(specs))]
+        parts = [_group_worker(i) for i in range(len(specs))] + [_conecyl_worker(c) for c in cone_specs]
     else:
         import multiprocessing as mp
         with mp.get_context("fork").Pool(8) as pool:
-            parts = pool.map(_group_worker, range(len(specs)), chunksize=1)
+            parts = pool.map(_group_worker, range(len(specs)), chunksize=1) + pool.map(_conecyl_worker, cone_specs, chunksize=1)
     for evs, exc in parts:
         excluded.update(exc)
         for e in evs:
